@@ -15,6 +15,8 @@ package main
 //	                  function itself / is not.  "Held" is decided by walking the statements: after `<ue>.CULock.Lock()`, until an
 //	                  explicit `<ue>.CULock.Unlock()` or a call of the guarded-unlock closure; a branch counts only if it can fall
 //	                  through; anything inside a function literal counts as not held.
+//	                  Uses of a parameter of type *cdrType.CHFRecord / []*cdrType.CHFRecord count as unheld accesses too: a record
+//	                  handed in is an element of the subscriber's ue.Records, the function has no mutex of its own for it.
 //	  ownLock         the function locks <ue>.CULock itself
 //	  exception       a named reason why the unheld accesses of this function are safe (see `accessExceptions`); "" = none
 //	  root            the function is an HTTP handler of package sbi (it is entered without any lock held)
@@ -117,6 +119,11 @@ func isUeType(e ast.Expr) bool {
 	return s == "*ChfUe" || strings.HasSuffix(s, ".ChfUe") && strings.HasPrefix(s, "*")
 }
 
+func recordSlice(e ast.Expr) bool {
+	at, ok := e.(*ast.ArrayType)
+	return ok && at.Len == nil && strings.HasSuffix(typeStr(at.Elt), "CHFRecord")
+}
+
 func isCtxType(e ast.Expr) bool {
 	s := typeStr(e)
 	return s == "*CHFContext" || strings.HasSuffix(s, ".CHFContext") && strings.HasPrefix(s, "*")
@@ -127,6 +134,7 @@ type accessWalker struct {
 	ues      map[string]bool   // identifiers of type *ChfUe
 	closures map[string]string // guarded-unlock closure name -> ue identifier
 	held     map[string]bool
+	recs     map[string]bool // parameters of type *cdrType.CHFRecord / []*cdrType.CHFRecord
 	fact     *fnFact
 	calls    *[]heldCallSite
 	lits     int // depth of function literals
@@ -163,6 +171,12 @@ func (w *accessWalker) expr(n ast.Node) {
 				} else {
 					w.fact.unheld++
 				}
+			}
+		case *ast.Ident:
+			// a charging record handed in by the caller is part of the subscriber's state (an element of ue.Records): the
+			// function works on it without a mutex of its own, it relies on its caller
+			if w.recs[e.Name] {
+				w.fact.unheld++
 			}
 		case *ast.CallExpr:
 			name := ""
@@ -519,7 +533,17 @@ func stateAccessTables() string {
 					}
 				}
 				ues, closures := ueIdents(fd)
-				w := &accessWalker{fields: fields, ues: ues, closures: closures, held: map[string]bool{}, fact: fact, calls: &calls}
+				recs := map[string]bool{}
+				if fd.Type.Params != nil {
+					for _, p := range fd.Type.Params.List {
+						if t := typeStr(p.Type); strings.HasSuffix(t, "CHFRecord") || recordSlice(p.Type) {
+							for _, n := range p.Names {
+								recs[n.Name] = true
+							}
+						}
+					}
+				}
+				w := &accessWalker{fields: fields, ues: ues, closures: closures, recs: recs, held: map[string]bool{}, fact: fact, calls: &calls}
 				w.block(fd.Body.List)
 				facts = append(facts, fact)
 				counterKind(fd, file, &counters)
